@@ -28,7 +28,7 @@ def run_suite(snapdir, k_expr=None, procs=8):
            "-n", str(procs), "spowtd/test"]
     if k_expr:
         cmd += ["-k", k_expr]
-    p = subprocess.run(cmd, cwd=REPO, env=env, capture_output=True, text=True, timeout=3000)
+    p = subprocess.run(cmd, cwd=REPO, env=env, capture_output=True, text=True, timeout=1500)
     tail = (p.stdout + p.stderr).strip().splitlines()[-1:]
     return p.returncode, tail[0] if tail else ""
 
@@ -72,10 +72,11 @@ def judge(chk, prefixes, k_expr=None, parts=("load", "classify", "curves")):
             raise MachineryError("the repository's tests left no dataset to observe: %s" % tail)
         chk.count("test_executions_observed", sum(len(v[1]) for v in snaps.values()))
         chk.count("distinct_datasets_observed", len(snaps))
+        tasks = []       # (kind, payload, label, key, tests)
         for key, (path, tests) in sorted(snaps.items()):
             conn = sqlite3.connect(path)
             label = "dataset left by %s%s" % (tests[0], " (+%d more tests)" % (len(tests) - 1) if len(tests) > 1 else "")
-            tag = "test " + tests[0].split("::")[-1]
+            tag = "test " + tests[0].split("::")[-1][:60]
             try:
                 k = _which_sample(conn)
                 thr = conn.execute("SELECT storm_rain_threshold_mm_h, rising_jump_threshold_mm_h FROM thresholds").fetchone()
@@ -85,28 +86,45 @@ def judge(chk, prefixes, k_expr=None, parts=("load", "classify", "curves")):
                 if "load" in parts and k is not None:
                     t, n = LC.field_trace(k, conn=conn)
                     t["id"] = "%s: load" % tag
-                    res = LC._validate(t)
-                    chk.add_tlc(res, "TraceLoad " + t["id"])
-                    chk.count("traces_validated_against_impl"); chk.count("evaluations", n)
-                    _report(chk, res["fails"], prefixes, label, key, tests)
+                    tasks.append(("load", (t, n), label, key, tests))
                 if "classify" in parts and thr is not None:
                     for t in FF.traces_from_conn(conn, tag, thr[0], thr[1]):
-                        res = FF._validate(t)
-                        chk.add_tlc(res, "TraceField " + t["id"])
-                        chk.count("traces_validated_against_impl"); chk.count("evaluations", len(t["rain"]))
-                        if t["pair"] and t["inter"]:
-                            chk.count("distinct_nontrivial")
-                        _report(chk, res["fails"], prefixes, label, key, tests)
+                        tasks.append(("classify", t, label, key, tests))
                 if "curves" in parts and has_grid and has_curves:
                     prov, stat = PV.cases_from_conn(conn, tag)
-                    for module, cases in (("TraceProvenance", prov), ("TraceStationary", stat)):
-                        fails = PV.validate(chk, module, cases, "%s on %s" % (module, tag))
-                        chk.count("traces_validated_against_impl", len(cases))
-                        chk.count("evaluations", sum(len(c.get("rows", c.get("levels", []))) for c in cases))
-                        chk.count("distinct_nontrivial", sum(1 for c in cases if len(c.get("members", c.get("intervals", []))) >= 2))
-                        _report(chk, fails, prefixes, label, key, tests)
+                    tasks.append(("prov", prov, label, key, tests))
+                    tasks.append(("stat", stat, label, key, tests))
             finally:
                 conn.close()
+
+        def work(task):
+            kind, payload = task[0], task[1]
+            if kind == "load":
+                return LC._validate(payload[0])
+            if kind == "classify":
+                return FF._validate(payload)
+            return PV.validate(chk, "TraceProvenance" if kind == "prov" else "TraceStationary", payload,
+                               "%s on %s" % (kind, task[2][:80]))
+        from concurrent.futures import ThreadPoolExecutor
+        with ThreadPoolExecutor(max_workers=8) as ex:
+            results = list(ex.map(work, tasks))
+        for (kind, payload, label, key, tests), res in zip(tasks, results):
+            if kind == "load":
+                chk.add_tlc(res, "TraceLoad " + payload[0]["id"])
+                chk.count("traces_validated_against_impl"); chk.count("evaluations", payload[1])
+                fails = res["fails"]
+            elif kind == "classify":
+                chk.add_tlc(res, "TraceField " + payload["id"])
+                chk.count("traces_validated_against_impl"); chk.count("evaluations", len(payload["rain"]))
+                if payload["pair"] and payload["inter"]:
+                    chk.count("distinct_nontrivial")
+                fails = res["fails"]
+            else:
+                chk.count("traces_validated_against_impl", len(payload))
+                chk.count("evaluations", sum(len(c.get("rows", c.get("levels", []))) for c in payload))
+                chk.count("distinct_nontrivial", sum(1 for c in payload if len(c.get("members", c.get("intervals", []))) >= 2))
+                fails = res
+            _report(chk, fails, prefixes, label, key, tests)
         chk.sample({"observed_tests": sorted(t for v in snaps.values() for t in v[1])[:12], "distinct_datasets": len(snaps)})
     finally:
         rm(wd)
@@ -126,6 +144,7 @@ def replay_file(chk, rp):
     """re-run the tests that left the rejected dataset and judge again"""
     names = sorted({t.split("::")[-1].split("[")[0] for t in rp["tests"]})
     judge(chk, (chk.prop,) if chk.prop.startswith("C") else ("C",), k_expr=" or ".join(names))
+    chk.count("distinct_nontrivial", 0)
 
 
 def tt(chk, tier):
